@@ -36,7 +36,7 @@ package iavl
 //@   callsite nodeDB).nodeKey@2 [rekeyed-fallback] len(nk) != 32 && buf == nil && nKey.nonce == 1
 //@   ensures err == nil ==> res != nil && fresh(res) && !inptr[res] && valid(res) && view(res) == dbview(c_ord(cntOf(nk))) && res.nodeKey != nil && res.leftNode == nil && res.rightNode == nil
 //@   ensures nframe(old(heap(N)), heap(N), old(na))
-//@   modifies nodeDB.*[*], Statistics.*[*]
+//@   modifies nodeDB.mtx[*], Statistics.*[*]
 //@   allocates Node NodeKey BM
 
 // ---------------------------------------------------------------- node.go
@@ -50,7 +50,7 @@ package iavl
 //@   ensures err == nil && old(node.leftNode) == nil ==> fresh(res) && !inptr[res] && res.nodeKey != nil && res.leftNode == nil && res.rightNode == nil
 //@   ensures old(node.leftNode) != nil ==> err == nil
 //@   ensures nframe(old(heap(N)), heap(N), old(na))
-//@   modifies nodeDB.*[*], Statistics.*[*]
+//@   modifies nodeDB.mtx[*], Statistics.*[*]
 
 //@ func (*Node).getRightNode(node, t) (res, err)
 //@   props C01 C02 C11
@@ -61,7 +61,7 @@ package iavl
 //@   ensures err == nil && old(node.rightNode) == nil ==> fresh(res) && !inptr[res] && res.nodeKey != nil && res.leftNode == nil && res.rightNode == nil
 //@   ensures old(node.rightNode) != nil ==> err == nil
 //@   ensures nframe(old(heap(N)), heap(N), old(na))
-//@   modifies nodeDB.*[*], Statistics.*[*]
+//@   modifies nodeDB.mtx[*], Statistics.*[*]
 
 // clone: an uncommitted copy with both children in memory.  Only shape(node)
 // is required (children well-formed), so that a node whose stored height is
@@ -79,7 +79,7 @@ package iavl
 //@   ensures [nilonerr] err != nil ==> res == nil
 //@   ensures [closed] err == nil ==> closed(res) && res.leftNode < res && res.rightNode < res
 //@   ensures [frame] nframe(old(heap(N)), heap(N), old(na))
-//@   modifies node.leftNode, node.rightNode, nodeDB.*[*], Statistics.*[*]
+//@   modifies node.leftNode, node.rightNode, nodeDB.mtx[*], Statistics.*[*]
 
 // calcHeightAndSize: recompute the stored height and size of a node under
 // reconstruction from its (in-memory, valid) children.
@@ -95,7 +95,7 @@ package iavl
 //@   ensures [shape] err == nil ==> valid(node) && view(node) == mk(cntOf(node.key), old(view(node.leftNode)), old(view(node.rightNode)))
 //@   ensures [children] valid(node.leftNode) && valid(node.rightNode) && view(node.leftNode) == old(view(node.leftNode)) && view(node.rightNode) == old(view(node.rightNode))
 //@   ensures [frame] nframeX(old(heap(N)), heap(N), old(na), node)
-//@   modifies node.subtreeHeight, node.size, nodeDB.*[*], Statistics.*[*]
+//@   modifies node.subtreeHeight, node.size, nodeDB.mtx[*], Statistics.*[*]
 
 //@ func (*Node).calcBalance(node, t) (b, err)
 //@   props C01 C02 C11
@@ -103,7 +103,7 @@ package iavl
 //@   ensures err == nil ==> b == hgt(old(lview(node))) - hgt(old(rview(node)))
 //@   ensures old(node.leftNode) != nil && old(node.rightNode) != nil ==> err == nil
 //@   ensures nframe(old(heap(N)), heap(N), old(na))
-//@   modifies nodeDB.*[*], Statistics.*[*]
+//@   modifies nodeDB.mtx[*], Statistics.*[*]
 
 // ---------------------------------------------------------------- mutable_tree.go: rotations and rebalancing
 
@@ -120,7 +120,7 @@ package iavl
 //@   ensures [valid] err == nil ==> fresh(res) && !inptr[res] && valid(res) && res.nodeKey == nil && cntOf(res.key) == i_key(old(lview(node)))
 //@   ensures [shape] err == nil ==> view(res) == rotRk(cntOf(old(node.key)), old(lview(node)), old(rview(node)))
 //@   ensures [frame] nframe(old(heap(N)), heap(N), old(na))
-//@   modifies Node.leftNode[*], Node.rightNode[*], nodeDB.*[*], Statistics.*[*]
+//@   modifies Node.leftNode[*], Node.rightNode[*], nodeDB.mtx[*], Statistics.*[*]
 
 //@ func (*MutableTree).rotateLeft(tree, node) (res, err)
 //@   props C01 C02 C11
@@ -135,7 +135,7 @@ package iavl
 //@   ensures [valid] err == nil ==> fresh(res) && !inptr[res] && valid(res) && res.nodeKey == nil && cntOf(res.key) == i_key(old(rview(node)))
 //@   ensures [shape] err == nil ==> view(res) == rotLk(cntOf(old(node.key)), old(lview(node)), old(rview(node)))
 //@   ensures [frame] nframe(old(heap(N)), heap(N), old(na))
-//@   modifies Node.leftNode[*], Node.rightNode[*], nodeDB.*[*], Statistics.*[*]
+//@   modifies Node.leftNode[*], Node.rightNode[*], nodeDB.mtx[*], Statistics.*[*]
 
 // balance: rebalance a node under reconstruction (children valid, stored
 // height/size up to date or not) — result is bal of the documented algorithm.
@@ -155,7 +155,7 @@ package iavl
 //@   lemma [RL] err == nil && old(balf(view(node))) < 0 - 1 && old(balf(rview(node))) > 0 ==> view(res) == rotL(setRight(old(view(node)), rotR(old(rview(node)))))
 //@   ensures [shape] err == nil ==> view(res) == bal(old(view(node)))
 //@   ensures [frame] nframeX(old(heap(N)), heap(N), old(na), node)
-//@   modifies node.leftNode, node.rightNode, node.leftNodeKey, node.rightNodeKey, Node.leftNode[*], Node.rightNode[*], nodeDB.*[*], Statistics.*[*]
+//@   modifies node.leftNode, node.rightNode, node.leftNodeKey, node.rightNodeKey, Node.leftNode[*], Node.rightNode[*], nodeDB.mtx[*], Statistics.*[*]
 
 // ---------------------------------------------------------------- logging (no effect on modelled state)
 //@ func (Logger).Debug(l, msg, keyVals)
@@ -216,7 +216,7 @@ package iavl
 //@   ensures [same] err == nil && updated ==> hgt(view(newSelf)) == hgt(old(view(node))) && siz(view(newSelf)) == siz(old(view(node)))
 //@   ensures [inptr] old(inptr[node]) ==> inptr[node]
 //@   ensures [frame] nframe(old(heap(N)), heap(N), old(na))
-//@   modifies Node.leftNode[*], Node.rightNode[*], inptr[node], smhas[tree.unsavedFastNodeAdditions], smval[tree.unsavedFastNodeAdditions], smhas[tree.unsavedFastNodeRemovals], nodeDB.*[*], Statistics.*[*]
+//@   modifies Node.leftNode[*], Node.rightNode[*], inptr[node], smhas[tree.unsavedFastNodeAdditions], smval[tree.unsavedFastNodeAdditions], smhas[tree.unsavedFastNodeRemovals], nodeDB.mtx[*], Statistics.*[*]
 //@   decreases hgt(view(node))
 
 // ---------------------------------------------------------------- mutable_tree.go: removal
@@ -239,7 +239,7 @@ package iavl
 //@   ensures [bounds] err == nil && newSelf != nil ==> hgt(view(newSelf)) <= hgt(old(view(node))) && siz(view(newSelf)) <= siz(old(view(node)))
 //@   ensures [origin] err == nil && removed && newSelf != nil ==> newSelf >= old(na) || old(inptr[newSelf])
 //@   ensures [frame] nframe(old(heap(N)), heap(N), old(na))
-//@   modifies Node.leftNode[*], Node.rightNode[*], nodeDB.*[*], Statistics.*[*]
+//@   modifies Node.leftNode[*], Node.rightNode[*], nodeDB.mtx[*], Statistics.*[*]
 //@   decreases hgt(view(node))
 
 // ---------------------------------------------------------------- node.go: lookups
@@ -252,7 +252,7 @@ package iavl
 //@   ensures [present] err == nil ==> (value != nil) == has(old(view(node)), ord(key))
 //@   ensures [value] err == nil && value != nil ==> cntOf(value) == lookup(old(view(node)), ord(key))
 //@   ensures [frame] nframe(old(heap(N)), heap(N), old(na))
-//@   modifies nodeDB.*[*], Statistics.*[*]
+//@   modifies nodeDB.mtx[*], Statistics.*[*]
 //@   decreases hgt(view(node))
 
 //@ func (*Node).getByIndex(node, t, index) (key, value, err)
@@ -263,7 +263,7 @@ package iavl
 //@   ensures [leaf] err == nil && value != nil ==> cntOf(key) == l_key(nth(old(view(node)), index)) && cntOf(value) == l_val(nth(old(view(node)), index))
 //@   ensures [outside] err == nil && value == nil ==> key == nil
 //@   ensures [frame] nframe(old(heap(N)), heap(N), old(na))
-//@   modifies nodeDB.*[*], Statistics.*[*]
+//@   modifies nodeDB.mtx[*], Statistics.*[*]
 //@   decreases hgt(view(node))
 
 // ---------------------------------------------------------------- import / compressed streams (C10: total on hostile node streams)
@@ -488,7 +488,7 @@ package iavl
 //@   ensures [present] err == nil ==> (value != nil) == has(old(tview(t.root)), ord(key))
 //@   ensures [value] err == nil && value != nil ==> cntOf(value) == lookup(old(tview(t.root)), ord(key))
 //@   ensures [frame] nframe(old(heap(N)), heap(N), old(na))
-//@   modifies nodeDB.*[*], Statistics.*[*]
+//@   modifies nodeDB.mtx[*], Statistics.*[*]
 
 //@ func (*ImmutableTree).GetByIndex(t, index) (key, value, err)
 //@   props C01 C11
@@ -496,7 +496,7 @@ package iavl
 //@   ensures [inrange] err == nil ==> (value != nil) == isLeaf(nth(old(tview(t.root)), index))
 //@   ensures [leaf] err == nil && value != nil ==> cntOf(key) == l_key(nth(old(tview(t.root)), index)) && cntOf(value) == l_val(nth(old(tview(t.root)), index))
 //@   ensures [frame] nframe(old(heap(N)), heap(N), old(na))
-//@   modifies nodeDB.*[*], Statistics.*[*]
+//@   modifies nodeDB.mtx[*], Statistics.*[*]
 
 //@ func (*MutableTree).set(tree, key, value) (updated, err)
 //@   props C01 C02 C11
@@ -509,7 +509,7 @@ package iavl
 //@   ensures [updated] err == nil ==> updated == has(old(tview(tree.ImmutableTree.root)), ord(key))
 //@   ensures [onerror] err != nil && value != nil ==> true
 //@   ensures [frame] nframe(old(heap(N)), heap(N), old(na))
-//@   modifies tree.ImmutableTree.root, Node.leftNode[*], Node.rightNode[*], inptr[tree.ImmutableTree.root], smhas[tree.unsavedFastNodeAdditions], smval[tree.unsavedFastNodeAdditions], smhas[tree.unsavedFastNodeRemovals], nodeDB.*[*], Statistics.*[*]
+//@   modifies tree.ImmutableTree.root, Node.leftNode[*], Node.rightNode[*], inptr[tree.ImmutableTree.root], smhas[tree.unsavedFastNodeAdditions], smval[tree.unsavedFastNodeAdditions], smhas[tree.unsavedFastNodeRemovals], nodeDB.mtx[*], Statistics.*[*]
 
 //@ func (*MutableTree).Remove(tree, key) (value, removed, err)
 //@   props C01 C02 C11
@@ -521,7 +521,7 @@ package iavl
 //@   ensures [model] err == nil && removed ==> tview(tree.ImmutableTree.root) == d_tree(del(old(tview(tree.ImmutableTree.root)), ord(key))) && (tree.ImmutableTree.root != nil ==> valid(tree.ImmutableTree.root))
 //@   ensures [value] err == nil && removed ==> cntOf(value) == d_val(del(old(tview(tree.ImmutableTree.root)), ord(key)))
 //@   ensures [frame] nframe(old(heap(N)), heap(N), old(na))
-//@   modifies tree.ImmutableTree.root, Node.leftNode[*], Node.rightNode[*], smhas[tree.unsavedFastNodeAdditions], smhas[tree.unsavedFastNodeRemovals], smval[tree.unsavedFastNodeRemovals], nodeDB.*[*], Statistics.*[*]
+//@   modifies tree.ImmutableTree.root, Node.leftNode[*], Node.rightNode[*], smhas[tree.unsavedFastNodeAdditions], smhas[tree.unsavedFastNodeRemovals], smval[tree.unsavedFastNodeRemovals], nodeDB.mtx[*], Statistics.*[*]
 
 // Rollback: the working tree becomes the last saved tree again and BOTH
 // uncommitted overlays are emptied.
@@ -587,7 +587,7 @@ package iavl
 //@   assumed the proof construction itself is not yet under contract: isProofFor names its result
 //@   requires t != nil
 //@   ensures err == nil ==> isProofFor(proof, old(tview(t.root)), ord(key))
-//@   modifies Node.hash[*], Node.leftNode[*], Node.rightNode[*], nodeDB.*[*], Statistics.*[*]
+//@   modifies Node.hash[*], Node.leftNode[*], Node.rightNode[*], nodeDB.mtx[*], Statistics.*[*]
 
 //@ func (*MutableTree).GetVersionedProof(tree, key, version) (proof, err)
 //@   props C03 C14
@@ -647,7 +647,7 @@ package iavl
 //@   requires t.root != nil && !t.skipFastStorageUpgrade && t.version == t.ndb.latestVersion && !fihas[t.ndb][ord(key)] ==> !has(tview(t.root), ord(key))
 //@   ensures [present] err == nil ==> (value != nil) == has(old(tview(t.root)), ord(key))
 //@   ensures [value] err == nil && value != nil ==> cntOf(value) == lookup(old(tview(t.root)), ord(key))
-//@   modifies nodeDB.*[*], Statistics.*[*]
+//@   modifies nodeDB.mtx[*], Statistics.*[*]
 
 // ---------------------------------------------------------------- iterator.go (C08): one step of the range-pruned tree walk (pre-order mode, as used by Iterator)
 //
@@ -830,7 +830,7 @@ package iavl
 //@   requires node != nil && t != nil && t.ndb != nil && path != nil && valid(node)
 //@   ensures [found] err == nil ==> res != nil && res.subtreeHeight == 0 && ord(res.key) == ord(key)
 //@   ensures [frame] nframe(old(heap(N)), heap(N), old(na))
-//@   modifies *path, ProofInnerNode.*[*], nodeDB.*[*], Statistics.*[*]
+//@   modifies *path, ProofInnerNode.*[*], nodeDB.mtx[*], Statistics.*[*]
 //@   decreases hgt(view(node))
 
 //@ func (*Node).PathToLeaf(node, t, key, version) (path, res, err)
@@ -838,7 +838,7 @@ package iavl
 //@   requires node != nil && t != nil && t.ndb != nil && valid(node)
 //@   ensures [found] err == nil ==> res != nil && res.subtreeHeight == 0 && ord(res.key) == ord(key)
 //@   ensures [frame] nframe(old(heap(N)), heap(N), old(na))
-//@   modifies ProofInnerNode.*[*], nodeDB.*[*], Statistics.*[*]
+//@   modifies ProofInnerNode.*[*], nodeDB.mtx[*], Statistics.*[*]
 
 // an existence proof is built from the leaf the path ends in, for the key asked
 //@ func (*ImmutableTree).createExistenceProof(t, key) (proof, err)
@@ -890,7 +890,7 @@ package iavl
 //@   requires [index-latest] root != nil && !smhas[adds][ord(key)] && !smhas[rems][ord(key)] && tree.ImmutableTree.version == ndb.latestVersion && !fihas[ndb][ord(key)] ==> !has(tview(root), ord(key))
 //@   ensures [present] err == nil ==> (value != nil) == has(old(tview(tree.ImmutableTree.root)), ord(key))
 //@   ensures [value] err == nil && value != nil ==> cntOf(value) == lookup(old(tview(tree.ImmutableTree.root)), ord(key))
-//@   modifies nodeDB.*[*], Statistics.*[*]
+//@   modifies nodeDB.mtx[*], Statistics.*[*]
 
 //@ func (*ImmutableTree).IsFastCacheEnabled(t) (ok, err)
 //@   props C07
@@ -1058,4 +1058,33 @@ package iavl
 //@   ensures [keyed-untouched] old(node.nodeKey) != nil ==> *nonce == old(*nonce)
 //@   ensures [fresh-key] old(node.nodeKey) == nil && err == nil && old(*nonce) < 4294967295 ==> node.nodeKey != nil && fresh(node.nodeKey) && node.nodeKey.version == *version && node.nodeKey.nonce == old(*nonce) + 1
 //@   callsite Node)._hash [hash-of-committed-version] arg0 == node && arg1 == version
+//@   modifies *
+
+// ---------------------------------------------------------------- nodedb.go: DeleteVersionsFrom — the rollback range delete (C09/C12)
+//
+// Without legacy versions: exactly the node keys of versions [fromVersion,
+// latest] are deleted ([fromVersion, latest+1) in key space), and the latest
+// version becomes fromVersion-1; a request above the latest version does nothing.
+//@ func (*nodeDB).traverseRange(ndb, start, end, fn) (err)
+//@   summary
+//@ func (*nodeDB).DeleteVersionsFrom(ndb, fromVersion) (err)
+//@   props C09 C12 C14
+//@   nosafety
+//@   requires ndb != nil && ndb.db != nil
+//@   macro plain = old(ndb.latestVersion) > 0 && old(ndb.latestVersion) < 9223372036854775807 && old(ndb.legacyLatestVersion) == 0 - 1 && fromVersion > 0
+//@   ensures [above-latest] plain && old(ndb.latestVersion) < fromVersion ==> err == nil && ndb.latestVersion == old(ndb.latestVersion)
+//@   callsite FastPrefixFormatter).KeyInt64@1 [range-from] plain ==> arg1 == fromVersion
+//@   callsite FastPrefixFormatter).KeyInt64@2 [range-to] plain ==> arg1 == old(ndb.latestVersion) + 1
+//@   callsite nodeDB).resetLatestVersion [new-latest] plain ==> arg1 == fromVersion - 1
+//@   modifies *
+
+// rollback = load the target, delete everything above it, commit that, rebuild the index
+//@ func (*MutableTree).LoadVersionForOverwriting(tree, targetVersion) (err)
+//@   props C09 C07
+//@   nosafety
+//@   requires tree != nil && tree.ndb != nil && allocated(tree.ndb) && tree.ndb.db != nil && targetVersion < 9223372036854775807
+//@   requires tree.ndb.legacyLatestVersion == 0 - 1 && tree.ndb.firstVersion > 0 && tree.ndb.latestVersion > 0
+//@   callsite nodeDB).DeleteVersionsFrom [everything-above-target] arg0 == tree.ndb && arg1 == targetVersion + 1
+//@   callsite nodeDB).Commit [rollback-committed] arg0 == tree.ndb
+//@   callsite enableFastStorageAndCommitIfNotEnabled [index-rebuilt] !tree.skipFastStorageUpgrade && arg0 == tree
 //@   modifies *
